@@ -71,7 +71,10 @@ def _case(draw, tier):
             "reuse_stream": draw(st.integers(0, 3)) == 0,
             # ... and after a REFUSED first attempt the retry uses the same stream while the application lets go of the first
             # attempt's exception object at the k-th file-system step of the retry
-            "drop_exceptions_at": draw(st.sampled_from([None, None, 0, 1, 2, 3, 5, 8, 12]))}
+            "drop_exceptions_at": draw(st.sampled_from([None, None, 0, 1, 2, 3, 5, 8, 12])),
+            # the pid under test is ALREADY bound to other content when the store arrives (after the calls on the other pids): the
+            # store is then refused (C03's business) - but if it reports success, it is a successful store like any other
+            "target_bound_before": draw(st.integers(0, 5)) == 0}
 
 
 def strategy(tier):
@@ -296,11 +299,17 @@ def run_case(case, ctx):
             ctx.violation("bad-validation-accepted", f"{run.describe(r)}")
         _check_stream(ctx, r, "a rejected store_object")
     # (given by path: the caller's file is a private copy that the caller REWRITES IN PLACE right after the call)
+    rebinding = bool(case.get("target_bound_before")) and pid is not None and len(run.contents) > 1 and run.contents[1] != data
+    if rebinding:
+        run.step({"op": "store", "pid": pid, "c": 1})
+        ctx.classify("pid-already-bound-to-other-content")
     main_op = {"op": "store", "pid": pid, "c": 0, "kind": kind, "offset": offset, "clobber_source": True}
     if case.get("reject_first") and case.get("drop_exceptions_at") is not None and pid is not None:
         main_op.update(reuse_stream=True, drop_exceptions_at=case["drop_exceptions_at"])
         ctx.classify("retry-with-the-same-stream-while-the-first-exception-is-released")
     r = run.step(main_op)
+    if rebinding and not is_ok(r.out):
+        return      # refused, as it should be: nothing to round-trip
     if not is_ok(r.out):
         ctx.violation("store-failed", f"store_object({kind}, {len(data)} bytes, offset {offset}) "
                       f"raised {r.out[1]}: {r.out[2]}", {"kind_arg": kind, "err": r.out[1]})
